@@ -1,6 +1,8 @@
 #!/bin/bash
 # usage: tools_try.sh <patch.diff> <prop-id>...   — apply a patch to /repo, run checks, revert
 p=$1; shift
-git -C /repo apply "$p" || { echo "patch does not apply"; exit 3; }
+if ! git -C /repo apply "$p" 2>/dev/null; then
+  git -C /repo apply -3 "$p" 2>/dev/null || { echo "patch does not apply"; git -C /repo reset -q --hard; exit 3; }
+fi
 for id in "$@"; do /verif/check $id 2>&1 | grep -E "VIOLATION|KNOWN|rule=|quick:|INFRA|Error|error" | cut -c1-400; done
-git -C /repo checkout -- .
+git -C /repo reset -q --hard
